@@ -454,7 +454,7 @@ pub fn run_proto(ctx: &mut RunCtx<'_>) -> Option<Violation> {
     let lifted: Vec<String> = ctx.lifted.to_vec();
     let is_lifted = move |f: &str| lifted.iter().any(|l| l == f || l == "all");
     // D11 (open known finding): ProtobufReader never terminates for a type with a list directly in a list
-    let types: Vec<usize> = z.with_flag(F_PROTO).into_iter().filter(|t| is_lifted("D11") || z.types[*t].flags & F_NESTED_LIST == 0).collect();
+    let types: Vec<usize> = z.with_flag(F_PROTO).into_iter().filter(|t| is_lifted("D11c") || z.types[*t].flags & F_NESTED_LIST == 0).collect();
     let (cfg, nfaults, enabled, xtype) = {
         let mut l0 = Lane::new(ctx.ch, 0);
         let mut cfg = draw_gen_cfg(&mut l0, &is_lifted, true);
